@@ -309,6 +309,13 @@ pub fn on_generic(id: Id, ev: Readiness, tag: &mut Tag) -> std::io::Result<PostA
         Ret::Reregister => Ok(PostAction::Reregister),
         Ret::Disable => Ok(PostAction::Disable),
         Ret::Remove => Ok(PostAction::Remove),
+        Ret::UnwrapRemove => {
+            if let Some(s) = sim.st.borrow().srcs.get(&id) {
+                s.sh.unwrap_now.set(true);
+            }
+            sim.probe("unwrap_while_registered");
+            Ok(PostAction::Remove)
+        }
         Ret::Err => {
             sim.hk.borrow_mut().cb_err_returned = true;
             sim.probe("callback_returned_err");
